@@ -110,10 +110,27 @@ def failures(res, gen):
         if msg.startswith('aborting due to'):
             continue
         unit_file = os.path.basename(res.get('path', '') or '')
-        spans = [s for s in d.get('spans', []) if not unit_file or os.path.basename(s.get('file_name', '')) == unit_file]
+        spans = []
+        for s0 in d.get('spans', []):
+            if not unit_file or os.path.basename(s0.get('file_name', '')) == unit_file:
+                spans.append(s0)
+                continue
+            # a span inside a std macro (panic!, unreachable!, todo!, assert!): use the call site in the unit
+            e = s0.get('expansion')
+            while e:
+                sp = e.get('span') or {}
+                if os.path.basename(sp.get('file_name', '')) == unit_file:
+                    sp = dict(sp)
+                    sp['is_primary'] = s0.get('is_primary', False)
+                    sp['label'] = 'in macro ' + (e.get('macro_decl_name') or '')
+                    spans.append(sp)
+                    break
+                e = sp.get('expansion')
         prim = [s for s in spans if s.get('is_primary')]
         sec = [s for s in spans if not s.get('is_primary')]
         kind = classify(msg)
+        if kind == 'precondition-of-callee' and any('in macro' in (x.get('label') or '') and re.search(r'panic|unreachable|todo|unimplemented|assert', x.get('label') or '') for x in prim):
+            kind = 'reachable-panic'
         def loc(s):
             ln = s['line_start']
             o = gen.origin[ln - 1] if 0 < ln <= len(gen.origin) else {'kind': '?'}
